@@ -3,6 +3,7 @@ import IbicusModel.Lemmas.GenWindows
 import IbicusModel.Props.Calendar
 import IbicusModel.Props.CalendarAgree
 import IbicusModel.Lemmas.GenLoops
+import IbicusModel.Props.Capstone2
 -- property theorems
 #print axioms Props.C08.window_mem_iff_circ
 #print axioms Props.C08.adjust_close
@@ -40,3 +41,19 @@ import IbicusModel.Lemmas.GenLoops
 #print axioms Lemmas.GenLoops.denote_loopIsimipRW
 #print axioms Lemmas.GenLoops.denoteGen_useDoy
 #print axioms Lemmas.GenLoops.genCentres_useDoy
+-- capstone 2 (BEGIN): the property on the composition of the regenerated pieces (`Props/Capstone2.lean`)
+#print axioms Props.Capstone2.regen_loopRW_local
+#print axioms Props.Capstone2.regen_loopIsimipRW_local
+#print axioms Props.Capstone2.regen_loopDC_local
+#print axioms Props.Capstone2.regenApplyLocation_LS_local
+#print axioms Props.Capstone2.regenApplyLocation_DC_local
+#print axioms Props.Capstone2.regenApplyLocation_CDFt_local
+#print axioms Props.Capstone2.regenApplyLocation_CDFt_years_local
+#print axioms Props.Capstone2.regenApplyLocation_QDM_local
+#print axioms Props.Capstone2.regenApplyLocation_QDM_years_local
+#print axioms Props.Capstone2.regenApplyLocation_QM_local
+#print axioms Props.Capstone2.regenApplyLocation_ECDFM_local
+#print axioms Props.Capstone2.regenApplyLocation_SDM_local
+#print axioms Props.Capstone2.regenApplyLocation_ISIMIP_local
+#print axioms Props.Capstone2.Demo.agree_demo
+-- capstone 2 (END)
